@@ -7,6 +7,7 @@ import RuschmModel.DriverText
 import RuschmModel.DriverMacro
 import RuschmModel.DriverGen
 import RuschmModel.DriverProg
+import RuschmModel.DriverFront
 open Ruschm
 
 def runCase (kind : String) (fields : List String) : List String :=
@@ -21,6 +22,9 @@ def runCase (kind : String) (fields : List String) : List String :=
   | "evalfile" => Driver.evalfile fields
   | "imports" => Driver.imports fields
   | "libs" => Driver.libs fields
+  | "cli" => Driver.cli fields
+  | "repl" => Driver.repl fields
+  | "world" => Driver.world fields
   | "gen-selfcheck" => Driver.genSelfcheck fields
   | "gen-text" => Driver.genText fields
   | "gen-data" => Driver.genData fields
